@@ -427,6 +427,36 @@ func init() {
 	reg("i2p", func(a []string) string {
 		return strconv.FormatUint(bmtree.IndexToPath(mustI32(a[0]), mustI32(a[1])), 10)
 	})
+	// <op>seq <fixed> <x1,x2,...>: the same function called on x1, x2, ... in this order; a pure function's answer
+	// cannot depend on the calls made before it.  One answer per call, separated by ';' (a panic is that call's answer).
+	seq := func(list string, one func(x string) string) string {
+		outs := []string{}
+		for _, x := range strings.Split(list, ",") {
+			o := "PANIC"
+			func() {
+				defer func() { recover() }()
+				o = one(x)
+			}()
+			outs = append(outs, o)
+		}
+		return strings.Join(outs, ";")
+	}
+	reg("i2pseq", func(a []string) string {
+		return seq(a[1], func(x string) string {
+			return strconv.FormatUint(bmtree.IndexToPath(mustI32(a[0]), mustI32(x)), 10)
+		})
+	})
+	reg("p2iseq", func(a []string) string {
+		return seq(a[1], func(x string) string {
+			return strconv.Itoa(int(bmtree.PathToIndex(mustI32(a[0]), mustU64(x))))
+		})
+	})
+	reg("p2ilseq", func(a []string) string {
+		return seq(a[1], func(x string) string {
+			i, has := bmtree.PathToIndexLoose(mustI32(a[0]), mustU64(x))
+			return fmt.Sprintf("%d,%d", i, has)
+		})
+	})
 }
 
 type rank128Retained struct {
